@@ -1984,6 +1984,20 @@ class TreeSim(WorldBase):
         a = {"slot": s, "prefix": enc_point(pre), "rest": enc_point(rest), "act": act, "v": v,
              "via": g.choice(["t", "root"])}
         if during:
+            # preferably right into the fiber being walked, below where the walk stands
+            tk = [t for t in self.tasks.values() if not t.done and t.kind == "ishaperef" and t.zslot == s]
+            if tk and g.random() < 0.7:
+                t0 = tk[0]
+                wpre = t0.info.get("pre", ())
+                wf = ob.find_fiber(sl.root, wpre)
+                got = [c for c in t0.info.get("got", []) if isinstance(c, int)]
+                if wf is not None and got and len(wpre) < sl.depth:
+                    below = [c for c in range(0, max(got)) if c not in wf.coords]
+                    if below:
+                        full2 = self.rand_path(g, sl, sl.depth)
+                        pt = tuple(wpre) + (g.choice(below),) + tuple(full2[len(wpre) + 1:])
+                        a["prefix"], a["rest"] = enc_point(()), enc_point(pt)
+                        a.pop("sp", None)
             a["during_walk"] = True
             a["act"] = g.choice(["set", "add", "none"])
             if a["act"] != "none":
